@@ -47,6 +47,10 @@ def configs(tier):
         for warm in ("remove", "add-remove"):
             out.append(dict(key=f"best,after-earlier-computation-and-{warm},sizes={s}", sizes=list(s), dissim="abstract", backend="cbc", mode="best", warm=warm,
                             cost=len(common.all_tuples(s)) ** 2))
+    # IEEE mode (symx.fp; harness shared with C07): after rounding too, the tuple leaving one unit alone is always a candidate, i.e. the
+    # integer program handed to the solver always has a feasible point (pairs concrete and far apart: delta_empty is the symbol)
+    for s in [(1, 1, 1)] + ([(1, 1, 1, 1)] if tier == "thorough" else []):
+        out.append(dict(key=f"ieee-kernel,sizes={s},pairs-far-apart", sizes=list(s), ieee=True, far=True, chunk=None, timeout_ms=120000, cost=300))
     if tier == "thorough":
         for s in [(3, 2), (3, 3), (2, 1, 1), (2, 2, 1), (1, 1, 1, 1), (0, 1, 2)]:
             for b in (BACKENDS if sum(s) <= 5 else ["cbc", "glpk_import"]):
@@ -61,6 +65,10 @@ def configs(tier):
 
 
 def harness(cfg, ns):
+    if cfg.get("ieee"):
+        from . import c07
+        return c07.harness(cfg, ns)
+
     def h(ctx):
         E = pipeline.setup(ns, ctx, cfg)
         rz = ctx.notes["realize"]
@@ -82,6 +90,9 @@ def real_checks(tier):
 
 
 def replay(case):
+    if case.get("kind") == "ieee-kernel":
+        from . import c07
+        return c07.replay(case)
     if case.get("kind") == "medium":
         return pipeline.real_medium_check(case, mode="best", backends=("cbc", "glpk_import"))
     return pipeline.replay_pipeline(case)
